@@ -88,7 +88,7 @@ def handle_io_order_rule(chk, P):
         if nm == EC + "set_outputs":
             chk.require(a == ["self.ctx", ans], "ORG", "ORG:handle_io:set_outputs-gets-this-answer", "ctx.set_outputs(&answer of this call)", "set_outputs receives %s" % a)
         if nm == TD + "extract_output_values":
-            chk.require(a[1] == ans and a[2] == "self.ctx", "ORG", "ORG:handle_io:extract-gets-this-answer", "extract_output_values(answer, &mut ctx)", "extract_output_values receives %s" % a)
+            chk.require(len(a) == 3 and a[1] == ans and a[2] == "self.ctx", "ORG", "ORG:handle_io:extract-gets-this-answer", "extract_output_values(answer, &mut ctx)", "extract_output_values receives %s" % a)
 
 
 def swap_pair_rule(chk, P):
@@ -103,7 +103,13 @@ def swap_pair_rule(chk, P):
     evals = [s for s in seqs if "collect" in s]
     good = bool(evals) and all(s.count("swap_vars") == 2 and s.index("swap_vars") < s.index("collect") and len(s) - 1 - s[::-1].index("swap_vars") > s.index("collect") for s in evals) and all(s.count("swap_vars") == 0 for s in seqs if "collect" not in s)
     chk.require(good, "PAIR", "PAIR:extract:swap_vars-around-evaluation", "swap_vars(); collect(map(..)); swap_vars() on every evaluating path; none on the early error return", "swap/evaluate orders on paths: %s" % sorted(seqs))
-    local_between = [s for s in evals for n in s if n not in ("swap_vars", "collect", "map")]
+    def between(s):
+        if s.count("swap_vars") < 2:
+            return s
+        i = s.index("swap_vars")
+        j = len(s) - 1 - s[::-1].index("swap_vars")
+        return s[i:j + 1]
+    local_between = [s for s in evals for n in between(s) if n not in ("swap_vars", "collect", "map")]
     chk.require(not local_between, "PAIR", "PAIR:extract:no-crate-call-between-swaps", "only iterator plumbing between the swaps", "crate-local calls between the swaps: %s" % local_between)
     sw = P.body(EC + "swap_vars")
     if chk.anchor("swap_vars", sw):
